@@ -184,6 +184,15 @@ class ListField(Field):
         if not self.field or isinstance(self.field, AnyField):
             return list(value) if isinstance(value, tuple) else value
 
+        if (
+            isinstance(value, ListProxy)
+            and value.list_field is self
+            and value.cfg is cfg
+        ):
+            # already validated, item by item, for this field of this configuration: keep the
+            # object, so that configurations held as items still refer to the list they are in
+            return value
+
         proxy = ListProxy(cfg, self, value)
         return proxy
 
